@@ -1,0 +1,78 @@
+//go:build verif
+
+package simpledb
+
+import (
+	"github.com/thomasjungblut/go-sstables/memstore"
+)
+
+// VerifTableInfo describes one live table as the manager sees it.
+type VerifTableInfo struct {
+	Path       string
+	NumRecords uint64
+	NullValues uint64
+	TotalBytes uint64
+}
+
+// VerifRunCompaction runs exactly one compaction cycle synchronously (selection, merge, reflection).
+// It returns the selected input paths (base names), the directory the merge was written to and the
+// replacement path; all empty when the cycle decided not to compact.
+func (db *DB) VerifRunCompaction() (selected []string, written string, replacement string, err error) {
+	md, err := executeCompaction(db)
+	if err != nil {
+		return nil, "", "", err
+	}
+	if md == nil {
+		return nil, "", "", nil
+	}
+	err = db.sstableManager.reflectCompactionResult(md)
+	return md.SstablePaths, md.WritePath, md.ReplacementPath, err
+}
+
+// VerifForceRotation rotates the WAL and hands the write store to the flusher, as a size-triggered rotation does.
+func (db *DB) VerifForceRotation() error {
+	db.rwLock.Lock()
+	defer db.rwLock.Unlock()
+	if !db.open || db.closed {
+		return ErrNotOpenedYet
+	}
+	return db.rotateWalAndFlushMemstore()
+}
+
+// VerifWaitFlusherIdle returns once every flush action handed over so far has been executed.
+func (db *DB) VerifWaitFlusherIdle() {
+	empty := memstore.NewMemStore()
+	db.storeFlushChannel <- memStoreFlushAction{memStore: &empty, walPath: ""}
+}
+
+// VerifTables lists the live tables oldest to newest.
+func (db *DB) VerifTables() []VerifTableInfo {
+	s := db.sstableManager
+	s.managerLock.RLock()
+	defer s.managerLock.RUnlock()
+	var out []VerifTableInfo
+	for _, r := range s.allSSTableReaders {
+		m := r.MetaData()
+		out = append(out, VerifTableInfo{Path: r.BasePath(), NumRecords: m.NumRecords, NullValues: m.NullValues, TotalBytes: m.TotalBytes})
+	}
+	return out
+}
+
+// VerifCandidates returns what the compaction selection currently picks.
+func (db *DB) VerifCandidates() ([]string, uint64) {
+	a := db.sstableManager.candidateTablesForCompaction(db.compactedMaxSizeBytes, db.compactionRatio)
+	return a.pathsToCompact, a.totalRecords
+}
+
+// VerifFloodFill exposes floodFill.
+func VerifFloodFill(a []bool) []bool {
+	return floodFill(a)
+}
+
+// VerifMemstoreRawSize is the raw size estimate of the current write store.
+func (db *DB) VerifMemstoreRawSize() uint64 {
+	db.rwLock.RLock()
+	defer db.rwLock.RUnlock()
+	n, _ := memstore.VerifRawSize(db.memStore.writeStore)
+	return n
+}
